@@ -9,7 +9,15 @@ use std::net::{IpAddr, Ipv4Addr, SocketAddr};
 
 pub const IP: IpAddr = IpAddr::V4(Ipv4Addr::new(10, 1, 2, 3));
 
-pub fn addr(port: u16) -> SocketAddr { SocketAddr::new(IP, port) }
+thread_local! {
+    /// real-socket mode (`realfam`): the loopback server every query is sent to and the read timeout in ms; no script is
+    /// installed, the library's own socket code runs
+    static REAL: std::cell::Cell<Option<(SocketAddr, u64)>> = const { std::cell::Cell::new(None) };
+}
+
+pub fn set_real(v: Option<(SocketAddr, u64)>) { REAL.with(|c| c.set(v)); }
+
+pub fn addr(port: u16) -> SocketAddr { REAL.with(|c| c.get()).map_or(SocketAddr::new(IP, port), |r| r.0) }
 
 fn parse_conn(s: &str) -> Option<ConnScript> {
     if s == "X" {
@@ -116,6 +124,11 @@ pub fn show_event(e: &Event) -> String {
 pub fn timeout(retries: usize) -> Option<TimeoutSettings> {
     // durations are irrelevant to the scripted transport itself (no clock) but reach every computation the code makes
     // with them; a case line may set them (`td=`), they must be valid
+    if let Some((_, ms)) = REAL.with(|c| c.get()) {
+        // read timeout `ms`; write and connect much longer and different (a receive must be bounded by the READ timeout)
+        let d = |x: u64| Some(std::time::Duration::from_millis(x));
+        return Some(TimeoutSettings::new(d(ms), d(ms * 10 + 2000), d(ms * 10 + 3000), retries).unwrap());
+    }
     let one = Some(std::time::Duration::from_secs(1));
     let [r, w, c] = DURATIONS.with(|d| d.get()).unwrap_or([one, one, one]);
     Some(TimeoutSettings::new(r, w, c, retries).unwrap())
@@ -128,6 +141,10 @@ thread_local! {
 
 /// Run a query under a script; print `<result> ;; <trace>`.
 pub fn run_q<T: crate::views::ViewDump>(script: Script, q: impl FnOnce() -> GDResult<T>, show: impl Fn(&T) -> String) -> String {
+    if REAL.with(|c| c.get()).is_some() {
+        let r = q();
+        return format!("{} ;; - ;; A0/0", show_res(&r, show));
+    }
     let budget = 200_000;
     vh::install(script, budget);
     let base = crate::alloc::begin();
